@@ -31,6 +31,8 @@ def run(ctx):
         hc.exhaustive(ctx, 'edit sequences', ['SETUP', 'AH '+x('D'), 'AT '+x('D')+' '+x('a')+' 0 -', 'AT '+x('D')+' '+x('b')+' 1 '+x('a'), 'AT '+x('D')+' '+x('c')+' 0 '+x('b'), 'AA '+x('S'), 'AT '+x('S')+' '+x('p')+' 0 -', 'UPD', 'KG '+x('D::b'), 'KG '+x('D::c && S::p'), 'EN 1 '+x('D::a'), 'EN 1 '+x('D::c')],
             ['DT '+x('D')+' '+x('a'), 'DT '+x('D')+' '+x('c'), 'AT '+x('D')+' '+x('n')+' 1 -', 'AT '+x('D')+' '+x('n')+' 0 '+x('b'), 'RN '+x('D')+' '+x('b')+' '+x('m'), 'DD '+x('S'), 'UPD', 'EN 99 '+x('D::n'), 'RF 0 1', 'KG '+x('D::n')],
             5, ['DE 0 0', 'DE 0 1', 'DE 1 0', 'DE 1 1', 'DE 0 2', 'DE 1 2', 'DE 0 3', 'DE 1 3'], claims=lambda op, a, b: True)
+    import dscheck
+    dscheck.run(ctx, 300 if ctx.quick() else 20000)
     hc.vm_crosscheck(ctx, H, model)
     hc.finish(ctx, f'{n} random histories biased to attribute/dimension additions, deletions, renames (delete->add forced in half of them, with and without an update in between), '
               'keys generated before and after, encapsulations for old and new attributes; non-trivial = a deletion followed by an addition and a decapsulation')
